@@ -1,22 +1,15 @@
 #!/bin/bash
-# usage: harmless.sh <dir-with-patch.diff> [props...]  -- applies a behaviour-preserving change to a scratch copy of /repo's
-# working tree and runs the quick check of every claimed property on it; prints one line per property that raised an alarm.
+# usage: harmless.sh <dir-with-patch.diff>  -- applies a behaviour-preserving change to a scratch copy of /repo's working
+# tree and decides every property's obligations on it in one pass (`govc alarms`); prints one line per property that would
+# raise an alarm, or "<id>: quiet".
 set -u
 D=$1; shift
-PROPS=${*:-C02 C03 C04 C05 C06 C07 C08 C09 C10 C11 C12 C13 C14 C15 C16 C18}
-N=$(basename $(dirname $(dirname $D)))-$(basename $D)
+N=$(basename $D)
 S=/var/tmp/govc-harmless/$N
 rm -rf $S; mkdir -p $S
 rsync -a --exclude .git /repo/ $S/repo/
 if ! (cd $S/repo && patch -p1 -s -i $D/patch.diff); then echo "$N: patch does not apply"; rm -rf $S; exit 0; fi
 export GOFLAGS=-mod=mod GOPROXY=off GOSUMDB=off GOTOOLCHAIN=local
 if ! (cd $S/repo && GOFLAGS= go build ./... ) >/dev/null 2>&1; then echo "$N: does not build"; rm -rf $S; exit 0; fi
-bad=0
-for p in $PROPS; do
-  GOVC_CORPUS=1 GOVC_REPO=$S/repo GOVC_EVIDENCE_DIR=$S/ev GOVC_REPLAY_DIR=$S/replays /verif/bin/govc check $p --tier quick > $S/$p.log 2>&1
-  e=$?
-  if [ $e -ne 0 ]; then bad=1; echo "$N: ALARM $p exit=$e: $(grep -m3 'not discharged\|no longer generated\|internal error\|contract error' $S/$p.log | cut -c1-230 | tr '\n' '|')"; fi
-done
-[ $bad -eq 0 ] && echo "$N: quiet"
-mkdir -p /var/tmp/govc-harmless-logs/$N; cp $S/*.log /var/tmp/govc-harmless-logs/$N/ 2>/dev/null
+GOVC_CORPUS=1 GOVC_REPO=$S/repo /verif/bin/govc alarms 2>/dev/null | grep "^ALARM\|^quiet\|contract error" | sed "s/^/$N: /" | cut -c1-400
 rm -rf $S
